@@ -145,6 +145,73 @@ if os.path.exists(os.path.join(HERE, "lean", "Ivy", "L2", "SignalProofs.lean")):
         technique="Lean 4 LTS invariant + decision-logic theorems over all interleavings + deterministic-schedule log replay",
         design="§7 C10")
 
+if os.path.exists(os.path.join(HERE, "lean", "Ivy", "L2", "EventProofs.lean")):
+    CLAIMED["C08"] = dict(
+        text="Lean 4 theorems (Ivy/Props/C08.lean, 15) over an LTS of iv_event per owner thread, at critical-section granularity: pending list under the owner's "
+             "mutex, the owner's stolen batch and pc, the wake sources (epoll one-shot kick / raw-event counter / local task), any number of poster threads each in "
+             "{outside, inCs, afterCs}. For every interleaving, any number of posters and events, both transports: the invariant WakeOwed (pending non-empty => a "
+             "transport-correct kick is pending, or the local task, or a poster is between its critical section and its kick, or the owner is woken), no lost post "
+             "(owner idle/blocked with no wake source and no kick in flight => nothing pending, nothing owed), every post in a trace ending quiescent is followed by a "
+             "handler start of that event or its unregister, deliveries(e)+queued(e) <= posts(e), each handler start justified by a post since the previous start, "
+             "handler only in the owner. Tied to the code by replaying T-sched logs through the LTS, comparing after every critical section the white-box pending "
+             "list, the task flag, the kernel's one-shot bit (fdinfo) and the eventfd count; implementation-only oracle (lost post at quiescence, wrong thread, "
+             "over-delivery, handler after unregister).",
+        note="Trusted: Lean kernel; standard axioms; T-sched engine + mt_c08 extension; kernel contract for the one-shot kick and raw fd; iv_main runs a registered task "
+             "before blocking (C06); valid use (no unregister while another thread is inside a post of that event); liveness in the safety form above.",
+        technique="Lean 4 LTS invariant proof over all interleavings + deterministic-schedule log replay with white-box snapshots",
+        design="§7 C08")
+if os.path.exists(os.path.join(HERE, "lean", "Ivy", "L3", "WaitProofs.lean")):
+    CLAIMED["C11"] = dict(
+        text="Lean 4 theorems (Ivy/Props/C11.lean, 17) over an LTS of iv_wait.c: the pid-keyed interest set under iv_wait_lock, per-interest queue and dead flag, the "
+             "SIGCHLD reap loop (one wait4 result per action, post as a separate action), completion steal/deliver, register / register_spawn (fork+insert in one "
+             "critical section) / unregister / kill, virtual children with pid reuse. For every reachable state: a reaped status goes to the interest registered for "
+             "that pid and to no other; queued = the child's reaped history since insertion; delivered statuses are a prefix of it, in order, in the owner thread; only "
+             "the last can be terminal and then the interest is out of the set (also under pid reuse); a spawned child is never missed; reaping a stranger changes "
+             "nothing (the repaired D1, with the pre-repair body proved to fault exactly there); kill() is issued only while the dead flag is clear, i.e. never after "
+             "the termination was reaped. Tied to the code by T-sched log replay with per-interest snapshots under the lock; implementation-only oracle.",
+        note="Trusted: Lean kernel; standard axioms; T-sched engine + mt_proc/mt_wait; virtual kernel contract for wait4/SIGCHLD/pid reuse; iv_event reduced to one owed "
+             "bit (C08), signal routing abstract (C10), AVL as association list (C16); valid use (one interest per pid, kill/unregister from the owner).",
+        technique="Lean 4 LTS invariant proof over all interleavings and histories + deterministic-schedule log replay",
+        design="§7 C11")
+if os.path.exists(os.path.join(HERE, "lean", "Ivy", "L3", "WorkProofs.lean")):
+    CLAIMED["C12"] = dict(
+        text="Lean 4 theorems (Ivy/Props/C12.lean, 13) over an LTS of iv_work.c (18 actions = its critical sections and handler entries; owed flags for pool->ev, "
+             "thread_needed and each worker's kick; one pc per worker and for the owner). For every interleaving, any max_threads >= 1 and any submission program "
+             "(owner submissions, continuations from workers): each item moves queued -> running in a worker != owner -> done -> completed in the owner, each stage "
+             "exactly once; running <= started <= max_threads; WorkOwed (queued work => a worker is inside got_event, or has its kick owed, or a thread is starting, or "
+             "thread_needed is owed) hence no quiescent state with an incomplete item; iv_fatal unreachable; NULL pool: work then completion once, in order, in the "
+             "submitter. Tied to the code by T-sched log replay with a white-box snapshot of the private pool struct at every release of the pool lock (struct copy "
+             "token-checked against the source on every run), virtual time across the 10 s idle timeout; implementation-only oracle.",
+        note="Trusted: Lean kernel; standard axioms; T-sched engine + mt_work; iv_event as an owed-delivery primitive (C08); timers fire once (C04); pthread_create "
+             "succeeds (witness of what happens otherwise: corpus/C12/thread-create-fails.scn); < 2^31 outstanding items; valid use (no submission after put).",
+        technique="Lean 4 LTS invariant proof over all interleavings + deterministic-schedule log replay with white-box snapshots",
+        design="§7 C12")
+    CLAIMED["C13"] = dict(
+        text="Lean 4 theorems (Ivy/Props/C13.lean, 10) over the same LTS plus a thread-lifetime machine: put clears the handle at once and cancels nothing; at quiescence "
+             "after put all items are completed, all workers joined, the pool freed and its loop objects released; thread_start/thread_stop paired exactly once per "
+             "worker; the pool's two events are unregistered only with started = 0, done = [], queue = []; iv_thread: the `dead` event is registered from create until "
+             "the join for every exit mode (return, pthread_exit, with/without iv_deinit). One genuine defect is recorded, not repaired (KNOWN-FINDING, theorem "
+             "finding_creator_deinit_uaf): the creator de-initialising its loop while a created thread is alive; the positive thread theorems are stated for runs in "
+             "which the creator stays in its loop. Tie and oracle as for C12, plus `put` injected at setup/completions/idle points and spawns in each exit mode.",
+        note="Trusted: as C12; TLS destructors run at thread exit; joining an exited thread returns; iv_thread modelled one thread at a time.",
+        technique="Lean 4 LTS invariant proof over all interleavings + deterministic-schedule log replay",
+        design="§7 C13")
+if os.path.exists(os.path.join(HERE, "lean", "Ivy", "L2", "Lockset.lean")):
+    CLAIMED["C14"] = dict(
+        text="Three parts. (a) Generic Lean 4 theorem lockset_sound (+ fork/join/message variants): in any well-formed trace, two accesses that hold a common lock are "
+             "ordered by happens-before — no bound on length, threads or locks. (b) A table of every access to shared state in the cross-thread files (535 rows, 140 "
+             "locations: file, function, struct.field or global, read/write/atomic, locks held, owner/foreign context) REGENERATED from the current source on every "
+             "run by a flow-sensitive walk of the clang AST. (c) A policy mapping each location to a discipline (lockedBy, ownerOnly, ownerWritesLocked, "
+             "immutableAfterPublication, guardedPublish, signalSafe, atomicOnly, oneWayFlag) and the theorem accesses_comply (decide +kernel over the table) and "
+             "C14_drf: any two conflicting accesses admitted by the table are happens-before ordered, or both atomic, or a listed one-way flag, or under a listed "
+             "exemption. Validation and search: six free-running multi-threaded programs under ThreadSanitizer (events, raw events, work pool, thread churn, signals, "
+             "children) on two method families; any report in /repo/src not on an exempt flag is a violation with replay = program+seed.",
+        note="Trusted: Lean kernel (axioms propext, Quot.sound); the extractor's aliasing/context classification and lock naming (documented in gen/gen_access.py); the listed "
+             "exemptions (init before publication, tear-down after unpublication, stolen lists, refcount-guarded reads); assumption: the first iv_init of the process "
+             "completes before other threads enter the library; TSan evidence is sampled over the schedules that ran. Stated as partial for that reason.",
+        technique="Lean 4 lockset theorem + decide over an access table regenerated from the source (clang AST) + ThreadSanitizer search",
+        design="§7 C14")
+
 NOT_YET = "check not built yet in this round; planned per DESIGN.md §7 (Lean model + theorems + correspondence)"
 
 checks = []
